@@ -113,6 +113,8 @@ def conforming_stimulus(max_txn=12, min_txn=1, modes=("r", "r", "w", "w", "rw"))
         "gap": st.sampled_from([0, 0, 0, 1, 2]),     # idle cycles before the transaction
         "inner_gap": st.sampled_from([0, 0, 0, 1]),  # idle cycles between its accesses
         "unmapped": st.sampled_from([None, None, None, "r", "w", "rw"]),  # access to an unmapped address first
+        # written value: random per chunk, or a whole-register pattern (one-hot at bit k, all ones, all zeros)
+        "pat": st.sampled_from([None, None, None, None, "onehot", "onehot", "ones", "zero"]),
     })
     return st.fixed_dictionaries({"kind": st.just("conf"), "txns": st.lists(txn, min_size=min_txn, max_size=max_txn),
                                   "dseed": st.integers(0, 1 << 30)})
@@ -173,8 +175,13 @@ def flatten(stim, regs, aw, dw):
         for j, c in enumerate(idx):
             if j and x["inner_gap"]:
                 cycles.append((r.start + c, 0, 0, hval(seed, "gw", len(cycles), dw), tid, "inner-idle"))
-            cycles.append((r.start + c, int("r" in x["mode"]), int("w" in x["mode"]),
-                           hval(seed, "d", f"{n}.{c}", dw), tid, "access"))
+            pat = x.get("pat")
+            if pat and r.width:
+                whole = {"onehot": 1 << (x["k"] % r.width), "ones": (1 << r.width) - 1, "zero": 0}[pat]
+                wd = (whole >> (c * dw)) & ((1 << dw) - 1)
+            else:
+                wd = hval(seed, "d", f"{n}.{c}", dw)
+            cycles.append((r.start + c, int("r" in x["mode"]), int("w" in x["mode"]), wd, tid, "access"))
         complete = idx == list(range(size))
         facts.append((x["mode"], ri, complete, x["len"], x["inner_gap"], len(idx)))
     cycles.append((0, 0, 0, 0, None, "drain"))
